@@ -1,5 +1,8 @@
 """C15 - rejected input fails cleanly and leaves no process-wide residue."""
+import gc
+import os
 import signal
+import sys
 import hashlib
 
 from simkit.engine import Prop
@@ -52,6 +55,11 @@ def _(w, e):
 CPU_BUDGET_S = 20.0
 
 
+def _interp_settings():
+    return (("gc enabled", gc.isenabled()), ("gc thresholds", gc.get_threshold()), ("recursion limit", sys.getrecursionlimit()),
+            ("working directory", os.getcwd()), ("sys.path", tuple(sys.path)), ("switch interval", sys.getswitchinterval()))
+
+
 def _cpu_budget(signum, frame):
     raise steps.StepBudgetExceeded("more than %s s of CPU time inside one call of the reader" % CPU_BUDGET_S)
 
@@ -67,6 +75,13 @@ def _(w, e):
     # it does not run while the process waits, so machine load does not matter), generous by a factor of > 100
     old = signal.signal(signal.SIGVTALRM, _cpu_budget)
     signal.setitimer(signal.ITIMER_VIRTUAL, CPU_BUDGET_S)
+    # interpreter-wide settings are process-wide settings too. The simulator keeps the cyclic collector off (collections
+    # are seeded events); for the duration of the call it is switched ON with thresholds no run can reach, so that
+    # "enabled" is observable without a single unscheduled collection
+    thr = gc.get_threshold()
+    gc.set_threshold(2 ** 30, 2 ** 30, 2 ** 30)
+    gc.enable()
+    w.interp_before = _interp_settings()
     try:
         n = sdn.parse(e["path"])
         w.last_parse = "returned"
@@ -79,6 +94,9 @@ def _(w, e):
         w.last_parse = "raised"
         raise
     finally:
+        w.interp_after = _interp_settings()
+        gc.disable()
+        gc.set_threshold(*thr)
         signal.setitimer(signal.ITIMER_VIRTUAL, 0)
         signal.signal(signal.SIGVTALRM, old)
         w.last_steps = steps.stop()
@@ -295,6 +313,10 @@ class C15(Prop):
                 w.count("fault.%s" % a)
         w.count("probe.reader_%s" % ("returned" if outcome == "ok" else "raised"))
         # (4) process-wide settings are what they were before the call, after success and after rejection
+        if getattr(w, "interp_after", None) != getattr(w, "interp_before", None):
+            diff = [a[0] for a, b in zip(w.interp_before, w.interp_after) if a != b]
+            raise Violation("C15.interpreter_setting_residue", "%s/%s" % (fmt, "returned" if outcome == "ok" else "raised"),
+                            "after the call these interpreter-wide settings differ from before: %s" % ", ".join(diff))
         post = World.process_state_fingerprint()
         if post != pre:
             which = "policy" if post[0] != pre[0] else ("listeners" if post[1] != pre[1] else (
